@@ -26,10 +26,12 @@ class AssocGen(F.Gen):
     dependent    every nested block has at least one selector that mentions a name of its parent block
     subdep       element selectors whose SUBSCRIPT mentions a name of an enclosing block
     print_names  PRINT statements may mention associate names
-    whole        whole-array selectors (`z => ia`, used as z(i) / z(lo:hi) / z inside the block)"""
+    whole        whole-array selectors (`z => ia`, used as z(i) / z(lo:hi) / z inside the block)
+    intrinsics   False: no intrinsic function references anywhere in the kernel (subscripts are literals or loop
+                 variables, values are not folded back by MOD - more programs leave the machine's magnitude bound)"""
 
     def __init__(self, rng, features=(), volatile=False, expr=True, unique=True, dependent=True, subdep=False,
-                 print_names=False, whole=True, max_depth=3):
+                 print_names=False, whole=True, max_depth=3, intrinsics=True):
         super().__init__(rng, features)
         self.volatile = volatile
         self.expr = expr
@@ -39,6 +41,9 @@ class AssocGen(F.Gen):
         self.print_names = print_names
         self.whole = whole
         self.max_depth = max_depth
+        self.intrinsics = intrinsics
+        if not intrinsics:
+            self.f -= {'select', 'section'}
         self.arr_alias = []          # associate names currently bound to the whole array ia
         self.counter = 0
         self.levels = []             # per open block: dict(scal=[names usable as integer scalars], ro=[read-only stable ones], arr=[..])
@@ -55,6 +60,26 @@ class AssocGen(F.Gen):
                     if mentions(s['items'], set(self.assoc_names)):      # through ia_elem of an array alias
                         s['items'] = [V('k'), V('t1')]
         return out
+
+    def bounded(self, e):
+        return super().bounded(e) if self.intrinsics else e
+
+    def index(self, arr, dim, scalars, simple=None):
+        return super().index(arr, dim, scalars, simple if self.intrinsics else True)
+
+    def int_expr(self, d, scalars):
+        e = super().int_expr(d, scalars)
+        if self.intrinsics:
+            return e
+        for _ in range(20):
+            if not has_kind(e, 'call') and not has_kind(e, 'pow'):
+                return e
+            e = super().int_expr(d, scalars)
+        return self.int_leaf(scalars)
+
+    def real_expr(self, d, rscalars, scalars):
+        e = super().real_expr(d, rscalars, scalars)
+        return e if self.intrinsics or not has_kind(e, 'call') else R(1, 2)
 
     def ia_elem(self, scalars):
         if self.arr_alias and self.rng.random() < 0.6:
